@@ -604,7 +604,7 @@ func rtBlocks(c *core.Case, blocks []*types.Block) {
 }
 
 func roundtripGroup(r *core.Run) {
-	per := r.N(100, 1500)
+	per := r.N(100, 3000)
 	r.Cases("roundtrip", r.N(16, 64), childOpts, func(c *core.Case) {
 		for i := 0; i < per; i++ {
 			for _, k := range consKinds {
